@@ -79,8 +79,9 @@ class C04(Prop):
             "duplicated/unsorted grid input, or an event exactly at the latency bound, or markov/warm-up set, or a "
             "second episode on the same environment; distinct = distinct cases")
     rule = (rule + "; 4% of the cases hand the data over as a price frame (TradingEnv(prices=...)) spanning more than two years "
-            "of rows 20-30 days apart with a configured episode length and a start near the end: everything earlier is replayed" + es.CONTEXT_RULE)
-    nontrivial_tags = {"prices-route", "latency-history", "one-event-date-change", "messy-grid", "at-bound", "markov", "warmup",
+            "of rows 20-30 days apart with a configured episode length and a start near the end: everything earlier is replayed; 4% use pandas Timestamps at nanosecond resolution (grid points with a "
+            "sub-microsecond part, quotes on a grid point and 400 ns .. 3 us after one), judged by the oracle alone" + es.CONTEXT_RULE)
+    nontrivial_tags = {"nanosecond-stamps", "prices-route", "latency-history", "one-event-date-change", "messy-grid", "at-bound", "markov", "warmup",
                        "second-episode"}
     assumptions = [
         "latency and event offsets are whole microseconds; the implementation compares timedelta.total_seconds() "
@@ -118,6 +119,8 @@ class C04(Prop):
 
     def gen(self, rng, tier):
         if rng.random() < 0.04:
+            return es.gen_ns_case(rng, 0)
+        if rng.random() < 0.04:
             return self.gen_prices_route(rng)
         case, grid, keys = es.gen_episode(rng, tier)
         if rng.random() < 0.25:
@@ -135,6 +138,13 @@ class C04(Prop):
         return case
 
     def run_impl(self, case):
+
+        if case.get("kind") == "ns":
+            # nanosecond-resolution pandas stamps: judged by the oracle alone (the model's unit is the microsecond)
+            from ..runner import ImplRun as _IR
+            r = _IR()
+            es.judge_ns_case(r, case, es.run_ns_case(case), exec_prices=bool(case.get("latency_ns")))
+            return r
         r, s = es.run_case(case, self.COMPARE)
         if s.env is None:
             return r
